@@ -46,12 +46,12 @@ def run(tier, seed):
             # every presentation style x rotating reader x rotating target family
             for j in range(2 if tier == "quick" else 3):
                 rd = rds[(k + j) % len(rds)]
-                h = codec.HINTS[(k + j) % 3]
+                h = codec.HINTS[(k + j) % len(codec.HINTS)]
                 k += 1
                 cmd = {"op": "ser_de", "id": len(cmds), "schema": schema, "pres": pres, "reader": rd, "suffix": [171, 205]}
                 if h != "default":
                     cmd["hints"] = h
-                if h == "alt":
+                if h in ("alt", "alt2"):
                     cmd["shape"] = scn["v"]
                 cmds.append(cmd)
                 exps.append({"sid": scn["sid"], "enc": scn["enc"], "value": (scn["anyv"] if h == "any" else scn["v"]), "hints": h, "style": st})
@@ -123,9 +123,11 @@ def random_roundtrips(rng, n_events, rep, depth_extremes=False):
                              {"kind": "chunks", "sched": []}])
             cmds.append({"op": "ser_de", "id": len(cmds), "schema": {"nodes": nodes}, "pres": pres, "reader": rd,
                          "suffix": [rng.randrange(256)] if rng.random() < 0.5 else []})
-            h = rng.choice(["default", "default", "alt", "any"])      # family of serde hints of the target (DeView!Shown)
+            h = rng.choice(["default", "default", "alt", "any", "alt2"])      # family of serde hints of the target (DeView!Shown)
             if h != "default":
                 cmds[-1]["hints"] = h
+                if h == "alt2":
+                    cmds[-1]["shape"] = v
                 if h == "alt":
                     cmds[-1]["shape"] = v
                     if rng.random() < 0.4:      # integer targets for decimals (also inside Option<_> over unions of several branches)
